@@ -29,7 +29,7 @@ pub fn main(rest: &[String]) -> i32 {
                 }
                 let v: Value = serde_json::from_str(&line).unwrap();
                 let game = proj::game_from_fields(&v);
-                let res = std::panic::catch_unwind(|| {
+                let res = crate::unwind_safe(|| {
                     let (coef, white_eval, phase) = eval::verif_terms::coefficients(&game);
                     (coef, white_eval, phase, eval::eval(&game).0)
                 });
